@@ -505,7 +505,7 @@ def build_cyc_model(case, G, mk, T):
             m = getattr(fp, mk["cls"])(G, flow_attr="flow", k=mk["k"], **kw)
     except Exception as ex:
         case.counts["model_ctor_errors"] += 1
-        case.dists.append("model_ctor_error:" + type(ex).__name__)
+        case.dists.append("model_ctor_error:" + type(ex).__name__ + ":" + str(ex)[:60])
         return
     g = Gr(m.G)
     case.counts["b_cyc_models"] += 1
@@ -722,6 +722,38 @@ def solver_threads():
     return sw.SolverWrapper.threads
 
 
+class CaseTimeout(BaseException):
+    pass
+
+
+def guarded_build(ctx, kind, buildf, spec, T, limit=4.0):
+    """Builds one case under a wall-clock limit (a library loop that no longer terminates must not hang or
+    exhaust the memory of the check).  Exceptions whose innermost frame is inside the library are failures
+    of the library on a valid generated input (concrete); anything else is a defect of this engine."""
+    import signal, traceback, sys
+    def on_alarm(signum, frame):
+        raise CaseTimeout()
+    old = signal.signal(signal.SIGALRM, on_alarm)
+    signal.setitimer(signal.ITIMER_REAL, limit)
+    try:
+        return buildf(spec, T)
+    except CaseTimeout:
+        ctx.report(f"a safety computation of the library did not terminate within {limit:.0f} s on a graph with <= 10 nodes ({kind} case)",
+                   {"spec": spec}, concrete=True)
+    except MemoryError:
+        ctx.report(f"a safety computation of the library exhausted memory ({kind} case)", {"spec": spec}, concrete=True)
+    except Exception as ex:
+        tb = traceback.extract_tb(sys.exc_info()[2])
+        in_lib = bool(tb) and "flowpaths" in tb[-1].filename and "/harness/" not in tb[-1].filename
+        ctx.report((f"the library raised {ex!r} on a valid generated input ({kind} case, in {tb[-1].name})" if in_lib else
+                    f"engine raised while building a {kind} case: {ex!r}"),
+                   {"spec": spec, "traceback": traceback.format_exc()}, concrete=in_lib)
+    finally:
+        signal.setitimer(signal.ITIMER_REAL, 0)
+        signal.signal(signal.SIGALRM, old)
+    return None
+
+
 def run(ctx):
     ctx.rule = ("case = one generated graph with one trusted set X: DAG stream (random DAG <= 8 nodes; X = all st-edges / base edges / "
                 "random subset / edges of random subpath constraints), cyclic stream (random digraph or SCC gadgets self-loop, 2-cycle, "
@@ -740,14 +772,9 @@ def run(ctx):
             except ValueError:
                 continue
             spec["case"] = i
-            try:
-                case = buildf(spec, T)
-            except Exception as ex:
-                import traceback
-                ctx.report(f"library or engine raised while building a {kind} case: {ex!r}", {"spec": spec, "traceback": traceback.format_exc()},
-                           concrete=False)
-                continue
-            cases.append(case)
+            case = guarded_build(ctx, kind, buildf, spec, T)
+            if case is not None:
+                cases.append(case)
     # one batch for the extracted model
     reqs = [r for c in cases for r in c.reqs]
     outs = []
@@ -778,10 +805,24 @@ def run(ctx):
             ctx.report(what, {"spec": c.spec, "detail": detail}, key=key, concrete=concrete)
 
 
+    n_dormant = ctx.engines.get("models", {}).get("dag_dormant_fixing_code_raises_TypeError", 0)
+    if n_dormant:
+        ctx.notes.append(f"observation: AbstractPathModelDAG._apply_safety_optimizations (never called by the pinned constructors) raised TypeError "
+                         f"('dict' object is not callable: stDAG.nodes_reaching is a property) in {n_dormant} explicit calls; on the DAG side only "
+                         "safe_lists and paths_to_fix are certified")
+
+
 def replay(ctx, body):
     spec = body["spec"]
     T = solver_threads()
-    case = BUILDERS[spec["kind"]][1](spec, T)
+    class _C:                                     # collects what guarded_build reports
+        def __init__(self): self.hits = []
+        def report(self, what, replay, key=None, concrete=True): self.hits.append(what)
+    col = _C()
+    case = guarded_build(col, spec["kind"], BUILDERS[spec["kind"]][1], spec, T)
+    if case is None:
+        print("still failing:", col.hits)
+        return True
     case.evaluate(ctx.model)
     for what, detail, concrete, key in case.failures:
         print("still failing:", what, detail)
